@@ -383,13 +383,14 @@ func c03NewGen(rnd *rand.Rand, mappings map[string]int32, nKeys int, thorough bo
 		var ks c03KeySpec
 		ks.Metric = int32(1000 + j%17 + 1)
 		ks.Kind = j % c03KindBigUnique
-		if j%41 == 7 {
+		// the expensive kinds: a bounded number of keys whatever the size of the pool
+		if j%41 == 7 && j < 330 {
 			ks.Kind = c03KindBigUnique
 		}
-		if j%41 == 11 {
+		if j%41 == 11 && j < 500 {
 			ks.Kind = c03KindBigDigest
 		}
-		if j%101 == 50 {
+		if j%101 == 50 && j < 400 {
 			ks.Kind = c03KindTopOverflow
 		}
 		ks.ZeroHash = j%5 == 2
